@@ -30,8 +30,12 @@ import (
 	"verifharness/mockstore"
 )
 
-// denyAC is an access controller that refuses entries written by the given identities.
-type denyAC struct{ denied map[string]bool }
+// denyAC is an access controller that refuses entries written by the given identities and — when bang is set —
+// every entry whose payload starts with '!' (a verdict that depends on the entry, not only on its writer).
+type denyAC struct {
+	denied map[string]bool
+	bang   bool
+}
 
 func (d *denyAC) CanAppend(e accesscontroller.LogEntry, _ idp.Interface, _ accesscontroller.CanAppendAdditionalContext) error {
 	id := e.GetIdentity()
@@ -40,6 +44,9 @@ func (d *denyAC) CanAppend(e accesscontroller.LogEntry, _ idp.Interface, _ acces
 	}
 	if d.denied[hexs(id.PublicKey)] {
 		return fmt.Errorf("denied by verif access controller")
+	}
+	if p := e.GetPayload(); d.bang && len(p) > 0 && p[0] == '!' {
+		return fmt.Errorf("denied by verif access controller: reserved payload")
 	}
 	return nil
 }
@@ -70,6 +77,7 @@ type world struct {
 	reuseOpts     bool
 	aliasOrder    []string
 	lenPtrs       map[int]*int
+	acl           bool // access-control history: some payloads are reserved ('!…')
 	hung          bool // an operation did not return
 	clock0        int // initial clock time of the replicas of this history
 	jsonFO        *entry.FetchOptions
@@ -82,7 +90,7 @@ type world struct {
 }
 
 type coreStats struct {
-	Histories, Ops, Appends, Joins, JoinNs, Loads, Iters, SetIds, TieHists, Forks, Exchanges, DeniedAppends, RejectedJoins, AclHists, Tampers, KeyedHists, DerivedCodecs int
+	Histories, Ops, Appends, Joins, JoinNs, Loads, Iters, SetIds, TieHists, Forks, Exchanges, DeniedAppends, BangAppends, RejectedJoins, AclHists, Tampers, KeyedHists, DerivedCodecs int
 	OpHist                                                                                 map[string]int
 	DistinctNontrivial                                                                     int
 	shapes                                                                                 map[string]bool
@@ -247,6 +255,11 @@ func (w *world) newReplica(id, writer, sk string, deny []string) int {
 	if len(deny) > 0 {
 		ac := &denyAC{denied: map[string]bool{}}
 		for _, d := range deny {
+			if d == "bang" {
+				ac.bang = true
+				dl = append(dl, "bang")
+				continue
+			}
 			k := hexs(w.ids.Identity(d).PublicKey)
 			ac.denied[k] = true
 			dl = append(dl, k)
@@ -276,6 +289,13 @@ func (w *world) doAppend(i int, pc int) {
 	case 1:
 		payload = []byte{0xff, 0x00, byte(w.nextPl), 0xfe} // binary
 	}
+	bang := ""
+	if w.acl && w.r.Intn(4) == 0 {
+		// a "reserved" payload: controllers with the bang rule refuse this entry whoever wrote it
+		payload = []byte(fmt.Sprintf("!r%d", w.nextPl))
+		bang = " bang"
+		w.stats.BangAppends++
+	}
 	var opts *iface.AppendOptions
 	if pc != 0 || w.r.Intn(2) == 0 {
 		opts = &iface.AppendOptions{PointerCount: pc}
@@ -286,12 +306,12 @@ func (w *world) doAppend(i int, pc int) {
 		if strings.Contains(err.Error(), "denied") {
 			tok = "!denied"
 		}
-		fmt.Fprintf(w.out, "A %d %d %s\n", i, pc, tok)
+		fmt.Fprintf(w.out, "A %d %d %s%s\n", i, pc, tok, bang)
 		w.shape += fmt.Sprintf("A%d.%d!;", i, pc)
 		w.stats.DeniedAppends++
 		return
 	}
-	fmt.Fprintf(w.out, "A %d %d %s\n", i, pc, w.al(e))
+	fmt.Fprintf(w.out, "A %d %d %s%s\n", i, pc, w.al(e), bang)
 	w.shape += fmt.Sprintf("A%d.%d;", i, pc)
 	w.stats.Appends++
 }
@@ -850,7 +870,9 @@ func runCore(seed int64, nHist, nOps int, out *bufio.Writer, thorough bool) *cor
 			nRep = 7 + int(hs%3)
 			stats.OpHist["wideHistory"]++
 		}
-		bounded := !shared && sk != "fww" && r.Intn(4) == 0
+		// size-bounded joins under every ordering; length-limited loads only under the causality-respecting ones
+		// (under first-write-wins "the most recent n" of a bounded fetch is not what sort-and-trim keeps)
+		bounded := !shared && r.Intn(4) == 0
 		ops := nOps
 		if shared {
 			ops = minI(nOps, 14) // keep every sorted slice ≤ 20 elements (see DESIGN §4.1 Sorting)
@@ -893,6 +915,7 @@ func runCore(seed int64, nHist, nOps int, out *bufio.Writer, thorough bool) *cor
 				stats.DerivedCodecs++
 			}
 		}
+		w.acl = acl
 		fmt.Fprintf(out, "H %d %d shared=%v bounded=%v sort=%s acl=%v keyed=%v\n", h, hs, shared, bounded, sk, acl, keyed)
 		for i := 0; i < nRep; i++ {
 			wr := fmt.Sprintf("w%d", i)
@@ -912,6 +935,10 @@ func runCore(seed int64, nHist, nOps int, out *bufio.Writer, thorough bool) *cor
 				}
 				if r.Intn(10) == 0 {
 					deny = append(deny, wr)
+				}
+				// half of the controllers of an access-control history also refuse reserved payloads, whoever signs them
+				if h%2 == 0 && (i+h/2)%2 == 0 {
+					deny = append(deny, "bang")
 				}
 			}
 			w.newReplica(id, wr, sk, deny)
@@ -933,6 +960,24 @@ func runCore(seed int64, nHist, nOps int, out *bufio.Writer, thorough bool) *cor
 			w.doJoin(dst, src, -1)
 			w.observe(dst)
 			stats.OpHist["bigTamperJoin"]++
+		}
+		if (shared || sk != "lww") && h%3 == 1 {
+			// flat start: every replica appends one entry, then two of them merge everybody — logs in which every
+			// entry is a head (with equal clocks when writers are shared), observed before anything links them
+			for i := range w.reps {
+				w.r = r
+				w.doAppend(i, 0)
+				w.observe(i)
+			}
+			for _, dst := range []int{0, len(w.reps) - 1} {
+				for j := range w.reps {
+					if j != dst {
+						w.doJoin(dst, j, -1)
+						w.observe(dst)
+					}
+				}
+			}
+			stats.OpHist["flatStart"]++
 		}
 		if maxOps >= 0 && ops > maxOps {
 			ops = maxOps // same PRNG prefix: the history is a prefix of the full one
@@ -1015,7 +1060,7 @@ func runCore(seed int64, nHist, nOps int, out *bufio.Writer, thorough bool) *cor
 					kind = "json0"
 				}
 				nn := -1
-				if bounded && r.Intn(2) == 0 && !shared && kind[0] != 'c' {
+				if bounded && sk != "fww" && r.Intn(2) == 0 && !shared && kind[0] != 'c' {
 					nn = r.Intn(w.reps[i].log.Len() + 4)
 				}
 				conc := []int{0, 1, 2, 4, 32}[r.Intn(5)]
